@@ -392,6 +392,12 @@ def classify(line, impl, why):
     regs = regions(v)
     if not why or why.startswith("model and implementation differ"):
         if not regs:
+            # a private=/no-cache= argument that opens a quoted-string and contains \" or \\ without being a well-formed
+            # quoted-string: the oracle does not judge it, but a repair of the quoted-pair defect reads it differently
+            for e in (r.strip(b" \t") for r in split_elements(v)):
+                n, a = name_arg(e)
+                if known_name(n) in LISTS and a is not None and a.startswith(b'"') and (b'\\"' in a or b"\\\\" in a):
+                    return "C29-quoted-pair"
             return None
         # correspondence break inside a known class (the model follows the unrepaired code; a candidate fix changes the implementation)
         return sorted(regs)[0]
